@@ -179,18 +179,29 @@ func c19ValidateExcerpt(c c19Case, rest string) string {
 			}
 			continue
 		}
-		off, lead, why := c19Window(src, s, colByte)
+		wins, why := c19Windows(src, s, colByte)
 		if why != "" {
 			return fmt.Sprintf("error line %d: %s", n, why)
 		}
-		// byte index of the reported character inside the shown string
-		inShown := colByte - off
-		if lead {
-			inShown += 3
-		}
-		wantCell := utf8.RuneCountInString(s[:inShown])
+		// byte index of the reported character inside the shown string; a line
+		// with repeated substrings admits several placements of the window:
+		// the caret must agree with one of them
 		gotCell := utf8.RuneCountInString(caretPrefix)
-		if gotCell != wantCell {
+		wantCell, okCell := 0, c19PlacementExplainsCaret(src, s, colByte, gotCell)
+		for i, w := range wins {
+			inShown := colByte - w.off
+			if w.lead {
+				inShown += 3
+			}
+			cell := utf8.RuneCountInString(s[:inShown])
+			if i == 0 {
+				wantCell = cell
+			}
+			if cell == gotCell {
+				okCell = true
+			}
+		}
+		if !okCell {
 			return fmt.Sprintf("caret at cell %d, reported character %q is at cell %d of the shown line", gotCell, src[colByte], wantCell)
 		}
 		// tabs before the caret must be reproduced at the same cells
@@ -210,20 +221,82 @@ func c19ValidateExcerpt(c c19Case, rest string) string {
 // by limit + markers, and (if mustContain >= 0) containing that byte offset.
 // Returns the offset of the window in src and whether a leading marker exists.
 func c19Window(src, shown string, mustContain int) (off int, lead bool, why string) {
+	ws, why := c19Windows(src, shown, mustContain)
+	if why != "" {
+		return 0, false, why
+	}
+	return ws[0].off, ws[0].lead, ""
+}
+
+// c19PlacementExplainsCaret: is there a placement of the shown window in the
+// source line (with markers exactly on the cut sides, within the display
+// bound) under which the reported byte stands at cell `cell` of the shown
+// text? The placement is derived from the caret, so repetitive lines cost nothing.
+func c19PlacementExplainsCaret(src, shown string, colByte, cell int) bool {
+	rs := []rune(shown)
+	if cell < 0 || cell >= len(rs) {
+		return false
+	}
+	inShown := len(string(rs[:cell]))
+	for _, cd := range []struct{ lead, trail bool }{{false, true}, {true, false}, {true, true}, {false, false}} {
+		w := shown
+		shift := 0
+		markers := 0
+		if cd.lead {
+			if !strings.HasPrefix(w, "...") {
+				continue
+			}
+			w, shift = w[3:], 3
+			markers++
+		}
+		if cd.trail {
+			if !strings.HasSuffix(w, "...") {
+				continue
+			}
+			w = w[:len(w)-3]
+			markers++
+		}
+		o := colByte - (inShown - shift)
+		if len(w) == 0 || o < 0 || o+len(w) > len(src) || src[o:o+len(w)] != w {
+			continue
+		}
+		if cd.lead == (o == 0) || cd.trail == (o+len(w) == len(src)) {
+			continue
+		}
+		if !(o <= colByte && colByte < o+len(w)) || utf8.RuneCountInString(shown) > c19Limit+3*markers {
+			continue
+		}
+		return true
+	}
+	return false
+}
+
+type c19Win struct {
+	off  int
+	lead bool
+}
+
+// c19Windows returns every placement of the shown text in the source line
+// that explains it (a line with repeated substrings has several).
+func c19Windows(src, shown string, mustContain int) (all []c19Win, why string) {
 	if len(src) <= c19Limit {
 		if shown != src {
-			return 0, false, fmt.Sprintf("line of %d bytes (<= limit) not shown verbatim: %q", len(src), clip(shown))
+			return nil, fmt.Sprintf("line of %d bytes (<= limit) not shown verbatim: %q", len(src), clip(shown))
 		}
-		return 0, false, ""
+		return []c19Win{{0, false}}, ""
 	}
 	if shown == src && utf8.RuneCountInString(src) <= c19Limit {
 		// no more than limit characters although more than limit bytes:
 		// showing it verbatim respects the display limit
-		return 0, false, ""
+		return []c19Win{{0, false}}, ""
 	}
 	if utf8.ValidString(src) && !utf8.ValidString(shown) {
-		return 0, false, fmt.Sprintf("shown text cuts a multi-byte character in half: %q", clip(shown))
+		return nil, fmt.Sprintf("shown text cuts a multi-byte character in half: %q", clip(shown))
 	}
+	return c19WindowsCut(src, shown, mustContain)
+}
+
+func c19WindowsCut(src, shown string, mustContain int) (all []c19Win, why string) {
 	// try the four marker combinations; accept if any explains the output
 	type cand struct{ lead, trail bool }
 	var reasons []string
@@ -274,13 +347,19 @@ func c19Window(src, shown string, mustContain int) (off int, lead bool, why stri
 				reasons = append(reasons, "empty window")
 				continue
 			}
-			return o, cd.lead, ""
+			all = append(all, c19Win{o, cd.lead})
+			if len(all) >= 64 {
+				return all, ""
+			}
 		}
+	}
+	if len(all) > 0 {
+		return all, ""
 	}
 	if len(reasons) == 0 {
 		reasons = append(reasons, "shown text is not a window of the source line")
 	}
-	return 0, false, fmt.Sprintf("%s (source %d bytes, shown %q)", reasons[0], len(src), clip(shown))
+	return nil, fmt.Sprintf("%s (source %d bytes, shown %q)", reasons[0], len(src), clip(shown))
 }
 
 func clip(s string) string {
